@@ -10,6 +10,7 @@ import (
 	"math/rand"
 	"os"
 	"sort"
+	"strings"
 	"sync"
 	"time"
 
@@ -87,7 +88,9 @@ func GenScenario(rng *rand.Rand, id, nA, nB int, polW map[string]int, allowLarge
 	for _, name := range []string{"A", "B"} {
 		sort.Slice(sc.Msgs[name], func(i, j int) bool { return sc.Msgs[name][i].MID < sc.Msgs[name][j].MID })
 	}
-	switch rng.Intn(4) {
+	switch rng.Intn(5) {
+	case 4:
+		sc.Motd = []string{"Banner " + strings.Repeat("=-", 2500) + " end of a 5000 character line", "short line"}
 	case 0:
 		sc.Motd = []string{"Welcome to the test node", "Second MOTD line with text"}
 	case 1:
@@ -529,12 +532,39 @@ func MainC04(args []string) int {
 		{MID: "ONECHUNK0002", Prec: 3, Size: "small", Policy: "dedup", NonASCII: true},
 		{MID: "MULTI0000003", Prec: 2, Size: "medium", Policy: "dedup"},
 		{MID: "ATTACH000004", Prec: 3, Size: "small", Att: 2, Policy: "dedup"},
+		{MID: "SUMZERO00005", Prec: 3, Size: "tiny", Policy: "dedup"}, // its compressed bytes sum to 0 mod 256 (seed searched below)
 	}
 	gz := os.Getenv("GZIP_EXPERIMENT") == "1"
 	for si, shape := range shapes {
 		base := &Scenario{ID: si + 1, Master: []string{"A", "B"}[si%2], Msgs: map[string][]MsgSpec{"A": {shape}}, Batched: map[string]bool{},
-			Sched: "free", Seg: "all", Seed: rng.Int63()}
+			Sched: "free", Seg: "all", Seed: rng.Int63(), Flushable: si == 1}
 		_, res := runClean(cloneScenario(base))
+		if shape.MID == "SUMZERO00005" && !gz {
+			// search a content whose payload bytes sum to 0 mod 256: the transfer's checksum byte is then 0
+			for try := 0; try < 4000; try++ {
+				st := res.Bytes["A"]
+				i0 := bytesIndexFrame(st)
+				sum, ok := 0, i0 >= 0
+				if ok {
+					pos := i0 + 2 + int(st[i0+1])
+					for pos < len(st) && st[pos] == 2 {
+						n := int(st[pos+1])
+						if n == 0 {
+							n = 256
+						}
+						for _, c := range st[pos+2 : pos+2+n] {
+							sum += int(c)
+						}
+						pos += 2 + n
+					}
+				}
+				if ok && sum%256 == 0 {
+					break
+				}
+				base.Seed = rng.Int63()
+				_, res = runClean(cloneScenario(base))
+			}
+		}
 		stream := res.Bytes["A"]
 		// locate the transfer in A's byte stream with the lexer
 		var frame *Unit
@@ -622,6 +652,11 @@ func MainC04(args []string) int {
 			eot := b - 2
 			last := blkPos[len(blkPos)-1]
 			ln := int(stream[last+1])
+			add(&Fault{AltKind: "edit", InsAt: map[int][]int{eot: {2, 0}}}, "stx-zero")
+			add(&Fault{AltKind: "edit", InsAt: map[int][]int{blkPos[0]: {2, 0}}}, "stx-zero")
+			if len(blkPos) > 1 {
+				add(&Fault{AltKind: "edit", InsAt: map[int][]int{blkPos[1]: {2, 0}}}, "stx-zero")
+			}
 			add(&Fault{AltKind: "edit", InsAt: map[int][]int{eot: {2, 1, 0}}}, "len-surplus-block")
 			add(&Fault{AltKind: "edit", InsAt: map[int][]int{eot: {2, 2, 1, 0xff}}}, "len-surplus-block")
 			add(&Fault{AltKind: "edit", InsAt: map[int][]int{eot: {2, 3, 0x80, 0x7f, 1}}}, "len-surplus-block")
